@@ -105,9 +105,20 @@ def enc_sec(sec) -> str:
 
 
 def enc_query(d: bytes, q) -> str:
+    """kind: 'QBody' | 'QMime' | 'QHeader' | 'QText' | 'QBinary' |
+    'QBinarySize' (data = int) | ('QFields', inverse, [names])"""
     kind, sec, partial, data = q
     p = 'None' if partial is None else f'(Some ({enc_off(partial[0])}, {enc_off(partial[1])}))'
-    return f'({kind}, {enc_sec(sec)}, {p}, {enc_expect(d, data)})'
+    if isinstance(kind, tuple):
+        names = '(@nil bytes)' if not kind[2] else '[' + ';'.join(enc_bytes(n) for n in kind[2]) + ']'
+        k = f'(QFields {"true" if kind[1] else "false"} {names})'
+    else:
+        k = kind
+    if kind == 'QBinarySize':
+        exp = f'(Sp (q x00) {enc_off(data)})'
+    else:
+        exp = enc_expect(d, data)
+    return f'({k}, {enc_sec(sec)}, {p}, {exp})'
 
 
 def enc_parse_case(d: bytes, obs) -> str:
@@ -118,11 +129,12 @@ def enc_lines_case(d: bytes, lines) -> str:
     return f'({enc_bytes(d)}, {enc_lines(lines)})'
 
 
-def enc_fetch_case(d: bytes, table, size: int, bs, queries) -> str:
+def enc_fetch_case(d: bytes, table, size: int, bs, queries, nonid=()) -> str:
     qs = '(@nil query)' if not queries else \
         '[' + ';'.join(enc_query(d, q) for q in queries) + ']'
     b = 'None' if bs is None else f'(Some {enc_bs(bs)})'
-    return f'({enc_bytes(d)}, {enc_table(table)}, {enc_off(size)}, {b}, {qs})'
+    ni = '(@nil nat)' if not nonid else '[' + ';'.join(enc_off(a) for a in nonid) + ']'
+    return f'({enc_bytes(d)}, {enc_table(table)}, {ni}, {enc_off(size)}, {b}, {qs})'
 
 
 def enc_parts_case(d: bytes, boundary: bytes, lines, parts) -> str:
@@ -146,15 +158,28 @@ def node_kind(node):
     return ('other',)
 
 
-def observe_tree(node, table):
+def node_identity(node) -> bool:
+    """does the implementation serve BINARY[..] of this node undecoded?
+    (MessageDecoder.of -> _NoopDecoder; stdlib email reads the header)"""
+    from pymap.mime.cte import MessageDecoder, _NoopDecoder
+    try:
+        return isinstance(MessageDecoder.of(node.header), _NoopDecoder)
+    except Exception:
+        return False
+
+
+def observe_tree(node, table, nonid=None):
     hl = [tuple(l) for l in node.header._lines]
     bl = [tuple(l) for l in node.body._lines]
     k = node_kind(node)
     if hl and k != ('text',):
         table.append((hl[0][0], k))
+    ident = node_identity(node)
+    if nonid is not None and hl and not ident:
+        nonid.append(hl[0][0])
     return {'hl': hl, 'bl': bl, 'raw': bytes(node), 'hdr': bytes(node.header),
-            'body': bytes(node.body), 'kind': k,
-            'subs': [observe_tree(s, table) for s in node.body.nested]}
+            'body': bytes(node.body), 'kind': k, 'identity': ident,
+            'subs': [observe_tree(s, table, nonid) for s in node.body.nested]}
 
 
 def observe_parse(d: bytes):
@@ -162,9 +187,10 @@ def observe_parse(d: bytes):
     from pymap.mime import MessageContent
     content = MessageContent.parse(d)
     table: list = []
-    tree = observe_tree(content, table)
+    nonid: list = []
+    tree = observe_tree(content, table, nonid)
     lines = [tuple(l) for l in MessageContent._find_lines(d)]
-    return {'content': content, 'table': table, 'tree': tree, 'lines': lines}
+    return {'content': content, 'table': table, 'tree': tree, 'lines': lines, 'nonid': nonid}
 
 
 def observe_bs(bs):
@@ -197,15 +223,87 @@ def loaded_of(content):
     return _Loaded(_Msg(1, datetime(2020, 1, 1), []), FetchRequirement.CONTENT, content)
 
 
-def direct_query(loaded, kind: str, sec, partial):
+def direct_query(loaded, kind, sec, partial):
     """The same call chain FETCH uses: FetchAttribute.Section ->
-    DynamicLoadedFetchValue._get_data (-> _get_partial) -> bytes."""
+    DynamicLoadedFetchValue._get_data (-> _get_partial) -> bytes (int for
+    'QBinarySize')."""
     from pymap.fetch import DynamicLoadedFetchValue
     from pymap.parsing.specials.fetchattr import FetchAttribute, FetchPartial
+    fp = None if partial is None else FetchPartial(partial[0], partial[1])
+    if isinstance(kind, tuple):
+        spec = b'HEADER.FIELDS.NOT' if kind[1] else b'HEADER.FIELDS'
+        section = FetchAttribute.Section(list(sec), spec, frozenset(kind[2]))
+        return bytes(DynamicLoadedFetchValue._get_data(section, fp, loaded))
+    if kind in ('QBinary', 'QBinarySize'):
+        section = FetchAttribute.Section(list(sec), None, None)
+        data = DynamicLoadedFetchValue._get_data(section, fp, loaded, binary=True)
+        return len(data) if kind == 'QBinarySize' else bytes(data)
     spec = {'QBody': None, 'QMime': b'MIME', 'QHeader': b'HEADER', 'QText': b'TEXT'}[kind]
     section = FetchAttribute.Section(list(sec), spec, None)
-    fp = None if partial is None else FetchPartial(partial[0], partial[1])
     return bytes(DynamicLoadedFetchValue._get_data(section, fp, loaded))
+
+
+_WS = b' \t\n\r\x0b\x0c'
+FIELD_NAMES = [b'Subject', b'From', b'To', b'X-Test', b'Date', b'Message-ID', b'MIME-Version',
+               b'Content-Type', b'Content-Transfer-Encoding', b'X-A', b'a', b'zzz', b'X']
+
+
+def gen_field_names(rng):
+    names = rng.sample(FIELD_NAMES, rng.randint(1, 3))
+    return [n.lower() if rng.random() < 0.3 else n.upper() if rng.random() < 0.3 else n
+            for n in names]
+
+
+def spec_groups(header: bytes):
+    """the header fields, RFC 2822: the lines before the first blank line, a
+    line that starts with white space continuing the field before it"""
+    pieces = header.split(b'\n')
+    lines = [l + b'\n' for l in pieces[:-1]] + ([pieces[-1]] if pieces[-1] else [])
+    groups: list = []
+    for l in lines:
+        if not l.strip(_WS):        # the header fields end at the first blank line
+            break
+        text = l.rstrip(b'\n')
+        if text.endswith(b'\r'):
+            text = text[:-1]
+        if text[:1] and text[:1] in _WS:
+            if groups:
+                groups[-1].append(l)
+        else:
+            groups.append([l])
+    out = []
+    for g in groups:
+        first = g[0].rstrip(b'\n')
+        if first.endswith(b'\r'):
+            first = first[:-1]
+        k = first.find(b':')
+        if k >= 0:                  # lines without a colon are no fields
+            out.append((first[:k].strip(_WS).upper(), first[k + 1:], g))
+    return out
+
+
+def spec_fields(header: bytes, names, inverse: bool) -> bytes:
+    """HEADER.FIELDS / HEADER.FIELDS.NOT written from RFC 3501 6.4.5: the fields
+    whose name is (is not) in the list, verbatim, then CR LF."""
+    want = {n.upper() for n in names}
+    return b''.join(b''.join(g) for name, _v, g in spec_groups(header)
+                    if (name in want) != inverse) + b'\r\n'
+
+
+def spec_identity_cte(header: bytes):
+    """Content-Transfer-Encoding of a header, read naively: True when absent
+    or 7bit/8bit/binary, False for another plain token, None when the field
+    is folded or is not a plain token (then the monitor does not judge)"""
+    for name, value, g in spec_groups(header):
+        if name == b'CONTENT-TRANSFER-ENCODING':
+            if len(g) > 1 or not re.fullmatch(rb'[ \t]*[A-Za-z0-9-]+[ \t]*', value):
+                return None
+            return value.strip(b' \t').lower() in (b'7bit', b'8bit', b'binary')
+    return True
+
+
+def count_lines(b: bytes) -> int:
+    return b.count(b'\n')
 
 
 def tree_paths(tree, limit=40):
@@ -284,13 +382,16 @@ def gen_text_lines(rng, style, nmax=6) -> bytes:
 def gen_header(rng, style, ctype: bytes | None) -> bytes:
     out = b''
     names = [b'Subject', b'From', b'To', b'X-Test', b'Date', b'Message-ID', b'MIME-Version',
-             b'Content-Transfer-Encoding', b'Content-Disposition']
+             b'Content-Transfer-Encoding', b'Content-Transfer-Encoding', b'Content-Disposition']
     fields = []
     for _ in range(rng.randint(0, 4)):
         name = rng.choice(names)
         val = b' '.join(rng.choice([b'a', b'hello', b'x@y.z', b'<a@b>', b'1.0', b'7bit',
                                     b'\xe9', b'"q"', b'(c)', b'=?utf-8?q?x?='])
                         for _ in range(rng.randint(0, 3)))
+        if name == b'Content-Transfer-Encoding' and rng.random() < 0.8:
+            val = rng.choice([b'7bit', b'8bit', b'binary', b'BINARY', b'8BIT', b'7bit',
+                              b'base64', b'quoted-printable', b'x-unknown'])
         fold = b''
         if rng.random() < 0.3:   # folded continuation line(s)
             for _ in range(rng.randint(1, 2)):
@@ -515,7 +616,7 @@ def read_sexp(buf: bytes, pos: int):
         if start + ln > n:
             raise RespError('literal longer than the response')
         return ('lit', buf[start:start + ln], ln), start + ln
-    m = re.compile(rb'[^\s()"{]+(?:\[[^\]]*\])?(?:<\d+>)?').match(buf, pos)
+    m = re.compile(rb'[^\s()"{\[]+(?:\[[^\]]*\])?(?:<\d+>)?').match(buf, pos)
     if not m:
         raise RespError(f'unexpected byte at {pos}: {buf[pos:pos + 20]!r}')
     return ('atom', m.group(0)), m.end()
@@ -681,6 +782,31 @@ def pure_monitor(ctx, d: bytes, obs, rng, *, backend='pure') -> dict:
             ctx.failure('partial_slice', f'BODY[]<{o}.{n}> returned {len(got)} octets, '
                         f'expected {len(d[o:o + n])}', dict(rep, partial=[o, n]),
                         {'kind': 'partial_wrong', 'level': 'direct'})
+    fields = []
+    for _ in range(2):
+        names = gen_field_names(rng)
+        for inv in (False, True):
+            got = direct_query(loaded, ('QFields', inv, names), [], None)
+            fields.append((('QFields', inv, names), [], None, got))
+            want = spec_fields(hdr, names, inv)
+            if got != want:
+                ctx.failure('header_fields', f'HEADER.FIELDS{".NOT" if inv else ""} '
+                            f'{[n.decode("latin-1") for n in names]} returned {got[:80]!r}, '
+                            f'expected {want[:80]!r}', dict(rep, names=[n.hex() for n in names]),
+                            {'kind': 'fields_wrong', 'level': 'direct'})
+    binary = []
+    if spec_identity_cte(hdr) is True and not obs['tree']['identity']:
+        ctx.failure('binary_identity', 'the Content-Transfer-Encoding is absent/7bit/8bit/binary '
+                    'but the implementation has no identity decoder for it (BINARY[] fails or '
+                    'is decoded)', rep, {'kind': 'identity_not_served', 'level': 'direct'})
+    if obs['tree']['identity']:
+        got = direct_query(loaded, 'QBinary', [], None)
+        gsz = direct_query(loaded, 'QBinarySize', [], None)
+        binary += [('QBinary', [], None, got), ('QBinarySize', [], None, gsz)]
+        if spec_identity_cte(hdr) and (got != d or gsz != len(d)):
+            ctx.failure('binary_identity', f'BINARY[] returned {len(got)} octets / BINARY.SIZE '
+                        f'{gsz} for a {len(d)}-octet literal with an identity encoding', rep,
+                        {'kind': 'binary_wrong', 'level': 'direct'})
     bs = None
     try:
         bs = observe_bs(loaded.get_body_structure())
@@ -692,39 +818,18 @@ def pure_monitor(ctx, d: bytes, obs, rng, *, backend='pure') -> dict:
                             lambda p: direct_query(loaded, 'QBody', p, None),
                             lambda p: direct_query(loaded, 'QMime', p, None), 'direct')
     return {'loaded': loaded, 'full': full, 'size': size, 'hdr': hdr, 'txt': txt,
-            'partials': pres, 'bs': bs}
-
-
-def phantom_parts(bs):
-    """part numbers of the empty text part that is printed for a multipart
-    without sub-parts (exactly one child: text, 0 octets, 0 lines — a real
-    part without lines has -1 lines)"""
-    out = []
-
-    def walk(p, b):
-        if b[0] == 'multi':
-            if b[1] == [('text', 0, 0)]:
-                out.append(p + [1])
-            for i, s in enumerate(b[1], 1):
-                walk(p + [i], s)
-        elif b[0] == 'msg':
-            walk(p if b[3][0] == 'multi' else p + [1], b[3])
-    walk([], bs)
-    return out
+            'partials': pres, 'bs': bs, 'fields': fields, 'binary': binary}
 
 
 def part_octets_monitor(ctx, bs, rep, get_body, get_mime, level) -> None:
-    phantoms = phantom_parts(bs)
+    """octets (and line counts) announced for every part of the structure, in
+    RFC 3501 numbering, against what BODY[part] returns"""
     for p, n in rfc_parts(bs):
         body = get_body(p)
         if n == len(body):
             continue
         mime = get_mime(p)
-        if p in phantoms:
-            kind = 'multipart_without_parts'
-        elif msg_on_path(bs, p):
-            kind = 'rfc822_part_numbering'
-        elif mime and n == len(mime) + len(body):
+        if mime and n == len(mime) + len(body):
             kind = 'size_includes_header'
         else:
             kind = 'other'
@@ -733,6 +838,30 @@ def part_octets_monitor(ctx, bs, rep, get_body, get_mime, level) -> None:
                     f'{len(body)} (BODY[part.MIME] has {len(mime)})',
                     dict(rep, part=p, announced=n, body_len=len(body), mime_len=len(mime)),
                     {'kind': kind, 'level': level})
+    for p, lines in rfc_part_lines(bs):
+        body = get_body(p)
+        if lines != count_lines(body):
+            ctx.failure('part_lines',
+                        f'part {".".join(map(str, p))}: {lines} lines announced, BODY[part] has '
+                        f'{count_lines(body)} line ends', dict(rep, part=p, announced_lines=lines),
+                        {'kind': 'line_count', 'level': level})
+
+
+def rfc_part_lines(bs):
+    """[(part specifier, announced lines)] for text and message parts"""
+    out = []
+
+    def part(p, b):
+        if b[0] == 'multi':
+            for i, s in enumerate(b[1], 1):
+                part(p + [i], s)
+        elif b[0] == 'msg':
+            out.append((p, b[2]))
+            part(p if b[3][0] == 'multi' else p + [1], b[3])
+        elif b[0] == 'text':
+            out.append((p, b[2]))
+    part([] if bs[0] == 'multi' else [1], bs)
+    return out
 
 
 # ======================================================== end-to-end driver
@@ -821,10 +950,19 @@ class E2E:
             items.update(it)
         return items, r
 
-    async def fetch_all(self, seq: bytes, parts, partials):
-        """the data items of the statement for one message"""
+    async def fetch_all(self, seq: bytes, parts, partials, fields=None, binary=None):
+        """the data items of the statement for one message; fields =
+        (names for HEADER.FIELDS, names for HEADER.FIELDS.NOT); binary = list of
+        sections ([] = whole message) to ask BINARY.PEEK / BINARY.SIZE for"""
         attrs = [b'RFC822.SIZE', b'RFC822', b'BODY.PEEK[]', b'BODY.PEEK[HEADER]',
                  b'BODY.PEEK[TEXT]', b'RFC822.HEADER', b'RFC822.TEXT']
+        if fields is not None:
+            attrs.append(b'BODY.PEEK[HEADER.FIELDS (' + b' '.join(fields[0]) + b')]')
+            attrs.append(b'BODY.PEEK[HEADER.FIELDS.NOT (' + b' '.join(fields[1]) + b')]')
+        for p in binary or ():
+            ps = b'.'.join(b'%d' % i for i in p)
+            attrs.append(b'BINARY.PEEK[' + ps + b']')
+            attrs.append(b'BINARY.SIZE[' + ps + b']')
         for o, n in partials:
             attrs.append(b'BODY.PEEK[]<%d.%d>' % (o, n))
         for p in parts:
@@ -861,8 +999,40 @@ def lit(v):
     return None
 
 
+def item_with_prefix(items, prefix: bytes):
+    for k, v in items.items():
+        if k.startswith(prefix):
+            return v
+    return None
+
+
+def identity_paths(tree, limit=3):
+    """[(RFC 3501 part number, node)] of the leaves and message parts whose
+    encoding the implementation treats as identity"""
+    out = []
+
+    def msg(p, node):
+        if node['kind'][0] == 'multi' and node['subs']:
+            for i, s in enumerate(node['subs'], 1):
+                part(p + [i], s)
+        else:
+            part(p + [1], node)
+
+    def part(p, node):
+        if node['kind'][0] == 'multi' and node['subs']:
+            for i, s in enumerate(node['subs'], 1):
+                part(p + [i], s)
+            return
+        if node['identity']:
+            out.append((p, node))
+        if node['kind'][0] == 'rfc822' and node['subs']:
+            msg(p, node['subs'][0])
+    msg([], tree)
+    return out[:limit]
+
+
 def check_items(ctx, d: bytes, items, partials, rep, where: str, backend: str,
-                expect: dict | None) -> bytes | None:
+                expect: dict | None, fields=None, binary=None) -> bytes | None:
     """Byte-exact monitor on the data items of one message (the original,
     its COPY or its MOVE).  Returns the bytes BODY[] delivered."""
     def fail(clause, what, kind, **more):
@@ -910,4 +1080,26 @@ def check_items(ctx, d: bytes, items, partials, rep, where: str, backend: str,
         if got != eff[o:o + n]:
             fail('partial_slice', f'BODY[]<{o}.{n}> returned {got and len(got)} octets, expected '
                  f'{len(eff[o:o + n])}', 'partial_wrong', partial=[o, n])
+    if fields is not None and hdr is not None:
+        for inv, names, prefix in ((False, fields[0], b'BODY[HEADER.FIELDS ('),
+                                   (True, fields[1], b'BODY[HEADER.FIELDS.NOT (')):
+            got = lit(item_with_prefix(items, prefix))
+            want = spec_fields(hdr, names, inv)
+            if got != want:
+                fail('header_fields', f'HEADER.FIELDS{".NOT" if inv else ""} '
+                     f'{[n.decode("latin-1") for n in names]} returned {got and got[:80]!r}, '
+                     f'expected {want[:80]!r}', 'fields_wrong', names=[n.hex() for n in names])
+    for p in binary or ():
+        ps = b'.'.join(b'%d' % i for i in p)
+        mime = hdr if not p else lit(items.get(b'BODY[' + ps + b'.MIME]'))
+        want = eff if not p else lit(items.get(b'BODY[' + ps + b']'))
+        if mime is None or want is None or not spec_identity_cte(mime):
+            continue
+        got = lit(items.get(b'BINARY[' + ps + b']'))
+        size = items.get(b'BINARY.SIZE[' + ps + b']')
+        if got != want or not (isinstance(size, tuple) and size[0] == 'atom'
+                               and size[1].isdigit() and int(size[1]) == len(want)):
+            fail('binary_identity', f'BINARY[{ps.decode()}] returned {got and len(got)} octets, '
+                 f'BINARY.SIZE {size!r}; BODY[{ps.decode()}] has {len(want)} and the encoding '
+                 'is an identity', 'binary_wrong', part=list(p))
     return eff
